@@ -149,6 +149,12 @@ partial def ceval (env : List (String × Val)) : Sexp → M Val
     | .atom "bool" => pure (.bool (b != 0))
     | _ => throw (.stuck "literal type")
   | .list [.atom "conc", .atom t, a] => do concretize t (← aeval a)
+  | .list [.atom "fmix", a, b] => do
+    -- `%` on abstract numbers with integral values: truncated remainder (sign of the dividend), as an f32
+    let x ← opt a.int? "remainder operand"
+    let y ← opt b.int? "remainder operand"
+    if y == 0 then throw (.constError "remainder by zero") else
+    pure (.f32 (f32OfI32 (BitVec.ofInt 32 (Int.tmod x y))))
   | .list [.atom "var", .atom n, _] => opt ((env.find? (·.1 == n)).map (·.2)) ("constant " ++ n)
   | .list [.atom "swz", _, b, .atom name] => do
     let bv ← ceval env b
